@@ -2,6 +2,7 @@ package c20
 
 import (
 	"fmt"
+	"net"
 	nethttp "net/http"
 	"strings"
 	"sync"
@@ -18,6 +19,35 @@ const (
 	hostReserved = "node.localhost"
 )
 
+// hostClasses: the host classes over which endpoints taken from remote answers range. "public" is the only class a strict node
+// may contact according to ParsePublicURL(strict) (no IP literal, no RFC 2606 / rfc2606bis reserved name).
+var hostClasses = map[string]string{
+	"public": hostOrigin, "ipv4": hostIP, "ipv6": "[2001:db8::1]", "link-local": "169.254.169.254", "loopback": "127.0.0.1",
+	"localhost": "localhost", "dot-local": "node.local", "reserved-tld": "node.test", "example-com": "www.example.com",
+}
+
+var hostClassOrder = []string{"public", "ipv4", "ipv6", "link-local", "loopback", "localhost", "dot-local", "reserved-tld", "example-com"}
+
+// classOfHost maps a Host header (with or without port) back to its class ("" = not one of ours).
+func classOfHost(h string) string {
+	if hh, _, err := net.SplitHostPort(h); err == nil {
+		h = hh
+	}
+	h = strings.Trim(h, "[]")
+	for cl, name := range hostClasses {
+		if strings.Trim(name, "[]") == h {
+			return cl
+		}
+	}
+	switch h {
+	case hostOther:
+		return "public"
+	case hostReserved:
+		return "reserved-tld"
+	}
+	return ""
+}
+
 var (
 	lab     *netlab.Lab
 	labOnce sync.Once
@@ -31,7 +61,17 @@ func theLab() *netlab.Lab {
 		lab.AddTLS("other-tls", hostOther+":443")
 		lab.AddTLS("ip-tls", hostIP+":443")
 		lab.AddTLS("reserved-tls", hostReserved+":443")
-		lab.AddPlain("plain", hostOrigin+":80", hostOther+":80", hostIP+":80", hostReserved+":80")
+		plain := []string{hostOrigin + ":80", hostOther + ":80", hostIP + ":80", hostReserved + ":80"}
+		var nonPublic []string
+		for cl, h := range hostClasses {
+			if cl == "public" || cl == "ipv4" {
+				continue
+			}
+			nonPublic = append(nonPublic, h+":443")
+			plain = append(plain, h+":80")
+		}
+		lab.AddTLS("non-public-tls", nonPublic...)
+		lab.AddPlain("plain", plain...)
 		lab.Install()
 	})
 	return lab
@@ -56,8 +96,11 @@ func labHandler(listener string, w nethttp.ResponseWriter, r *nethttp.Request) {
 		return
 	}
 	host := r.Host
-	if i := strings.Index(host, ":"); i >= 0 {
-		host = host[:i]
+	if hh, _, err := net.SplitHostPort(host); err == nil {
+		host = hh
+		if strings.Contains(hh, ":") {
+			host = "[" + hh + "]"
+		}
 	}
 	didSegs := segs
 	if n := len(didSegs); n > 0 && didSegs[n-1] == "did.json" {
@@ -69,6 +112,21 @@ func labHandler(listener string, w nethttp.ResponseWriter, r *nethttp.Request) {
 	}
 	beh, tail := segs[1], strings.Join(segs[2:], "/")
 	switch {
+	case beh == "asmeta" && len(segs) >= 6:
+		// authorization-server / credential-issuer metadata whose endpoints live elsewhere:
+		// /<nonce>/asmeta/<class of the presentation-definition endpoint>/<scheme>/<class of the token endpoint>/<scheme>
+		pd := fmt.Sprintf("%s://%s/%s/pd/x", segs[3], hostClasses[segs[2]], segs[0])
+		tok := fmt.Sprintf("%s://%s/%s/token/x", segs[5], hostClasses[segs[4]], segs[0])
+		w.Header().Set("Content-Type", "application/json")
+		fmt.Fprintf(w, `{"issuer":"https://%s/%s","presentation_definition_endpoint":%q,"token_endpoint":%q,"authorization_endpoint":%q,"credential_endpoint":%q,"credential_issuer":"https://%s/%s","did_methods_supported":["web","nuts","jwk"],`+
+			`"vp_formats_supported":{"jwt_vp":{"alg_values_supported":["ES256"]},"jwt_vc":{"alg_values_supported":["ES256"]},"ldp_vp":{"proof_type_values_supported":["JsonWebSignature2020"]},"ldp_vc":{"proof_type_values_supported":["JsonWebSignature2020"]}},`+
+			`"client_id_schemes_supported":["entity_id"]}`, r.Host, strings.Join(segs, "/"), pd, tok, tok, pd, r.Host, strings.Join(segs, "/"))
+	case beh == "pd":
+		w.Header().Set("Content-Type", "application/json")
+		fmt.Fprint(w, `{"id":"verif-pd","input_descriptors":[]}`)
+	case beh == "token":
+		w.Header().Set("Content-Type", "application/json")
+		fmt.Fprint(w, `{"access_token":"verif-token","token_type":"bearer","expires_in":60}`)
 	case beh == "ok":
 		w.Header().Set("Content-Type", "application/json")
 		fmt.Fprintf(w, `{"@context":["https://www.w3.org/ns/did/v1"],"id":%q,"servedBy":%q,"issuer":"https://%s","client_id":"x"}`, id, listener, host)
